@@ -377,8 +377,70 @@ def rmw_and_ids(ctx):
                        "carries a stale ID and all later IDs are shifted by one" % sorted(g), rp[0].loc)
 
 
+def capacity_and_forks(ctx):
+    ob10 = ctx.ob("C09.10", "the reservation counters can hold every value from 0 to buffer_depth (declared range > buffer_depth): a counter that wraps at a power-of-two "
+                            "depth under-counts the beats owed to accepted commands", 2)
+    ob11 = ctx.ob("C09.11", "two-handshake states (command and data issued independently) leave only when BOTH are done: the exit is the AND over the two channels of "
+                            "(handshake fires now | its own done flag), each done flag being set by that same handshake", 1)
+    for v, nm, what in ((wview(ctx, False), "write", "w_buffer.level"), (rview(ctx, False), "read", "buffer_depth")):
+        # the counter: the local register compared with w_buffer.level / buffer_depth in the command gate
+        cnts = set()
+        for l in v.leaves:
+            for t_ in ([l.value] if l.value is not None and isinstance(l.value, V) else []) + [c_ for c_, _ in l.guards]:
+                for st_ in subterms(t_):
+                    if isinstance(st_, Op) and st_.op in (">", "<", "!=", "==") and len(st_.args) == 2 and any(key(a_) == what for a_ in st_.args):
+                        for a_ in st_.args:
+                            if isinstance(a_, Obj) and a_.cls == "Signal" and "." not in str(a_) and v.drivers(a_) and all(d.domain.startswith("sync") for d in v.drivers(a_)):
+                                cnts.add(a_)
+        if not ob10.need(len(cnts) == 1, "%s path: reservation counter not identified (%s)" % (nm, sorted(map(str, cnts)))):
+            continue
+        c_ = list(cnts)[0]
+        mx = c_.kwargs.get("max")
+        ob10.instance("%s reservation counter %s" % (nm, c_), {"max": key(mx) if mx is not None else None, "bits": key(c_.args[0]) if c_.args else None})
+        if mx is not None:
+            if lin_ge(mx, Op("+", (Sym("buffer_depth"), Const(1)))) is not True:
+                ob10.refute("counter-range:%s" % nm, "the %s reservation counter %s is declared with max=%s, so it cannot hold the value buffer_depth (max must be > buffer_depth): "
+                            "with a power-of-two depth it wraps to 0 when the buffer is completely reserved" % (nm, c_, key(mx)), c_.loc)
+        elif not c_.args:
+            ob10.unknown("%s reservation counter %s has neither max nor an explicit width" % (nm, c_))
+    w = wview(ctx, True)
+    fs = w.fsms("")
+    if not ob11.need(len(fs) == 1, "RMW FSM not found"):
+        return
+    f = fs[0]
+    for st in f.states:
+        ls = w.fsm_leaves(f, st)
+        flags = {}
+        for l in ls:
+            if l.kind == "nextvalue" and is1(l.value) and isinstance(l.target, (Obj, Sym)):
+                rd = {k_ for k_ in w.guard_keys(l, False) if k_.endswith(".ready")}
+                if len(rd) == 1:
+                    flags[key(l.target)] = list(rd)[0]
+        if len(flags) < 2:
+            continue
+        for e in [l for l in ls if l.kind == "next"]:
+            pairs = []
+            okk = True
+            for a_, p_ in w.guard_lits(e, False):
+                dj = as_disj(a_, p_)
+                if dj is None or len(dj) != 2:
+                    continue
+                ks = {lkey(x) for x in dj}
+                fl = [k_ for k_ in ks if k_ in flags]
+                rd = [k_ for k_ in ks if k_.endswith(".ready")]
+                if len(fl) == 1 and len(rd) == 1:
+                    pairs.append((rd[0], fl[0]))
+                    if flags[fl[0]] != rd[0]:
+                        okk = False
+            ob11.instance("state %s exit" % st, {"flags set by": flags, "exit pairs": pairs})
+            if pairs and (not okk or len(pairs) != len(flags)):
+                ob11.refute("exit-pairing:%s" % st, "state %s is left under %s but its done flags are set by %s: a flag is paired with the other channel's ready, so the state is "
+                            "left while one of the two transfers has not happened (the command is never issued / the data never pushed)" % (st, pairs, flags), e.loc)
+
+
 def run(ctx):
     rmw_and_ids(ctx)
+    capacity_and_forks(ctx)
     write_path(ctx)
     read_path(ctx)
     shared_cmd(ctx)
